@@ -375,8 +375,11 @@ def alookup (l : List (String × β)) (k : String) : Option β :=
   | [] => none
   | (k', v) :: t => if k' = k then some v else alookup t k
 
+/-- replace the value under the first occurrence of `k` (keys are unique in a dict) -/
 def amodify (l : List (String × β)) (k : String) (f : β → β) : List (String × β) :=
-  l.map fun kv => if kv.1 = k then (kv.1, f kv.2) else kv
+  match l with
+  | [] => []
+  | (k', v) :: t => if k' = k then (k', f v) :: t else (k', v) :: amodify t k f
 
 def aset (l : List (String × β)) (k : String) (v : β) : List (String × β) := amodify l k fun _ => v
 
